@@ -38,7 +38,8 @@ fuzz_target!(|data: &[u8]| {
         // open finding C01-F3 (non-finite floats) is excluded by construction
         c01::run_one(z, zsch, &mut src, &cfg, &WorldCfg::default(), Quirks::default(), &[])
     } else {
-        c02::run_one(&mut src, &cfg, false, Quirks::default(), &[])
+        // bit 1: resolvers may yield null for non-null leaves (fields and list items)
+        c02::run_one(&mut src, &cfg, data[0] & 2 != 0, Quirks::default(), &[])
     };
     if let Verdict::Fail(why) = &case.verdict {
         panic!("execution differs from the reference executor: {}\n{}", why, case.text);
